@@ -467,7 +467,7 @@ pub fn e2e_scenario(c: &E2eCase) -> crate::e2e::Scenario {
             }
         }
     }
-    crate::e2e::Scenario { references: vec![None, None], sends, df_filter: None, aircraft_filter: None, dedup_ms: c.window, update_position: false, with_file: false, via_config: false, split: 0, long_table: false, history_expire: None, track: vec![] }
+    crate::e2e::Scenario { references: vec![None, None], sends, df_filter: None, aircraft_filter: None, dedup_ms: c.window, update_position: false, with_file: false, via_config: false, split: 0, long_table: false, cli_dup: false, history_expire: None, track: vec![] }
 }
 
 pub fn judge_e2e(ctx: &Ctx, sc: &crate::e2e::Scenario, out: &crate::e2e::Outcome, rep: &Value) -> Check {
